@@ -27,6 +27,7 @@ struct Profile {
 	uint32_t w_ping = 6, w_up = 4, w_offer = 4, w_adv = 3, w_nreq = 1, w_redeliver = 0, w_freeze = 0, w_rawmix = 0, w_recycle = 0;
 	int max_sessions = 1;
 	bool wild_frag = false;     // C15: fragment sizes from the hostile list, ack games
+	bool recycle_moves = false; // C14: after the silent period the host logs in again from another port (one recycle in two): whatever the server still holds for the earlier session must not be answered to the new address
 	bool big_frag = false;      // C16: one session in four negotiates a fragment size of 1200..4094 (boundary values 2047/2048, 4093/4094) and gets packets of up to 4600 bytes, so that answers of up to 4096 bytes pass through the answer cache
 	bool ack_games = false;
 	bool wrap_games = false;    // C01: upstream packets crafted against mis-assembly, sent as a conforming client would after seven of its packets were lost entirely (same 3-bit sequence number again)
@@ -101,7 +102,7 @@ struct Run {
 	// statistics for the non-trivial rules
 	int n_redeliver = 0, n_red_cache = 0, n_red_qmem = 0, n_red_pending = 0, n_red_lastfrag = 0, n_red_case = 0, n_red_otheraddr = 0;
 	int n_multi3 = 0, n_nreq_ok = 0, n_badfrag = 0, n_dup_twice = 0, n_realsoon = 0, n_tun_via_held = 0, n_long = 0;
-	int n_cache_same = 0, n_trunc = 0, n_lost_answers = 0, n_giveup = 0, n_raw = 0, n_recycled = 0, n_recycled_same_name = 0, n_recycled_data_before_n = 0, n_c2c = 0, n_red_altdomain = 0, n_qr = 0, n_hsreq = 0, n_wrap = 0, n_merge = 0, n_glue = 0, n_infra = 0, n_merge_lost_first = 0, n_excluded_k4 = 0, n_stray = 0, n_late = 0, n_excluded_k5 = 0;
+	int n_cache_same = 0, n_trunc = 0, n_lost_answers = 0, n_giveup = 0, n_raw = 0, n_recycled = 0, n_recycled_same_name = 0, n_recycled_data_before_n = 0, n_c2c = 0, n_red_altdomain = 0, n_qr = 0, n_hsreq = 0, n_wrap = 0, n_merge = 0, n_glue = 0, n_infra = 0, n_merge_lost_first = 0, n_excluded_k4 = 0, n_stray = 0, n_late = 0, n_excluded_k5 = 0, n_recycled_moved = 0;
 	std::vector<Bytes> must_deliver;   // packets the server accepted a fresh start of (a different first fragment under the same sequence number) and then received completely
 	uint64_t n_data_emits = 0;
 	std::map<int, std::pair<int, Bytes>> c2c_on_delivery;   // last-fragment query record -> (receiving peer, packet): registered in the receiver's stream when the server reads that query
@@ -642,6 +643,7 @@ struct Engine {
 		uint64_t recycle_t0 = sim::W.now;
 		sim::W.run_for(61000000 + t.below(15000000));
 		absorb_new(p);
+		if (P.recycle_moves && t.chance(1, 2)) { p.sc.addr.port = (uint16_t)(p.sc.addr.port + 7); p.sc.attach(); R.n_recycled_moved++; note(fmt("peer%d comes back from another port: %s", peer_index(p), p.sc.addr.str().c_str())); }
 		int old_user = p.sc.userid, oldF = p.F;
 		p.sc.dn_seq = p.sc.dn_frag = 0; p.sc.dn_buf.clear(); p.sc.up_seq = 0; p.sc.up_codec = 0; p.sc.data_cmc = 0;
 		p.lazy = t.chance(2, 3);
